@@ -372,9 +372,12 @@ def Inverter.invBoxed (inv : Inverter) (vartime : Bool) (value : List Nat) : Inv
             else (divsteps true inv.adjuster inv.modulus g inv.inverse, 0)
   finishInv inv value.length r.1.d r.1.f r.1.g r.2
 
-/-- `safegcd::boxed::gcd(f, g)` / `gcd_vartime`: result has `f`'s precision. -/
+/-- `safegcd::boxed::gcd(f, g)` / `gcd_vartime`: the unsaturated limbs are sized for the wider operand,
+    the result is converted back at that precision (`to_uint(wide_precision)`) and then shortened to
+    `f`'s precision (`.shorten(bits_precision)` = the low limbs). -/
 def gcdBoxed (vartime : Bool) (fw gw : List Nat) : GcdOut :=
-  let n := nlimbsFor (max fw.length gw.length * 64)
+  let wide := max fw.length gw.length
+  let n := nlimbsFor (wide * 64)
   let inverse := invMod2_62 fw
   let f := fromUint fw n
   let g := fromUint gw n
@@ -382,6 +385,6 @@ def gcdBoxed (vartime : Bool) (fw gw : List Nat) : GcdOut :=
   let iters := iterations (ubitsBoxed f) (ubitsBoxed g)
   let r := if vartime then divstepsVartime e f g inverse else (divsteps true e f g inverse, iters)
   let f1 := uselect r.1.f (uneg r.1.f) (uisNeg r.1.f)
-  ⟨toUint f1 fw.length, ueq r.1.g (uzero n), uisNeg f1, r.2, iters⟩
+  ⟨(toUint f1 wide).take fw.length, ueq r.1.g (uzero n), uisNeg f1, r.2, iters⟩
 
 end CB.SafeGcd
